@@ -37,7 +37,7 @@ func (g *gen) sqrtHard(p int) *apd.Decimal {
 	m := g.coeff(p) // a p-digit root candidate
 	var co *big.Int
 	extra := 0
-	switch g.r.Intn(8) {
+	switch g.r.Intn(10) {
 	case 0: // m^2
 		co = new(big.Int).Mul(m, m)
 	case 1: // m^2 + 1
@@ -50,6 +50,16 @@ func (g *gen) sqrtHard(p int) *apd.Decimal {
 		k := int64(g.r.Intn(3)) - 1
 		co.Add(co, big.NewInt(k))
 		extra = -2
+	case 8: // a tie of the P-digit grid with a far-away sticky digit: (10m+5)^2 * 10^(2j) +- 1
+		t := new(big.Int).Add(new(big.Int).Mul(m, big.NewInt(10)), big.NewInt(5))
+		j := 1 + g.r.Intn(20)
+		co = new(big.Int).Mul(new(big.Int).Mul(t, t), pow10(2*j))
+		if g.r.Intn(2) == 0 {
+			co.Add(co, one)
+		} else {
+			co.Sub(co, one)
+		}
+		extra = -2 - 2*j
 	case 5: // all nines with n digits
 		n := 1 + g.r.Intn(2*p+2)
 		co = new(big.Int).Sub(pow10(n), one)
